@@ -9,9 +9,11 @@ exactly one run executes at any time and the order of file-system calls is
 exactly the given schedule (no wall-clock ordering, no sleeps).
 
 After every step the output directory is projected to the abstract file system
-of spec/KernelOutput.tla (tag -> creator, writers, content class, tag of the
-names inside); creators/writers are attributed by directory differences, so
-they do not depend on which calls an implementation uses.
+of spec/KernelOutput.tla (final kernel files: tag -> creator, writers, content
+class, tag of the names inside; temporary files, which the 'single' scheme
+writes before linking them to the final name, apart: creator, content class);
+creators/writers are attributed by directory differences, so they do not depend
+on which calls an implementation uses.  `tempfile.mkstemp` is interposed too.
 '''
 import builtins
 import errno
@@ -95,6 +97,8 @@ class Classifier:
         self.re_mod = re.compile(r"^\s*module\s+" + base + r"_(\d+)_mod\s*$",
                                  re.I | re.M)
         self.re_file = re.compile("^" + base + r"_(\d+)_mod\.f90$")
+        # tempfile.mkstemp(prefix=<final name> + ".", suffix=".tmp")
+        self.re_tmp = re.compile("^" + base + r"_(\d+)_mod\.f90\..*\.tmp$")
 
     def _norm(self, text, tag):
         return text.replace(f"{self.base}_{tag}_", f"{self.base}_#_")
@@ -102,6 +106,9 @@ class Classifier:
     def tag_of(self, fname):
         m = self.re_file.match(fname)
         return m.group(1) if m else None
+
+    def is_tmp(self, fname):
+        return bool(self.re_tmp.match(fname))
 
     def classify(self, text):
         '''-> (class, inner tag).'''
@@ -150,7 +157,11 @@ class Scheduler:
         tag = self.cls.tag_of(fname)
         same_dir = os.path.dirname(os.path.abspath(str(path))) == \
             os.path.abspath(self.outdir)
-        return tag if (tag is not None and same_dir) else "x:" + fname
+        if same_dir and tag is not None:
+            return tag
+        if same_dir and self.cls.is_tmp(fname):
+            return "tmp"
+        return "x:" + fname
 
     def step(self, call, name, flags, action, classify=None):
         '''Block until released, then perform `action` for real.'''
@@ -214,14 +225,17 @@ class Scheduler:
         self._wait_quiet(run)
         event = self.last_event
         wrote = None
-        if event["call"] == "write" and event["res"] == "ok" \
-                and not event["name"].startswith("x:"):
+        if event["call"] == "write" and event["res"] == "ok" and event["name"].isdigit():
             wrote = f"{SUBJECT['base']}_{event['name']}_mod.f90"
-        event["fs"], event["stray"] = self.project(run, wrote)
+        event["fs"], event["tmps"], event["stray"] = self.project(run, wrote)
         if event["call"] == "write":
             # class of the file content after the write
-            event["cls"] = next((f["content"] for f in event["fs"]
-                                 if f["name"] == event["name"]), "")
+            if event["name"] == "tmp":
+                event["cls"] = next((t["content"] for t in event["tmps"]
+                                     if t["by"] == run), "")
+            else:
+                event["cls"] = next((f["content"] for f in event["fs"]
+                                     if f["name"] == event["name"]), "")
         event["next"] = self.pending[run]
         return event
 
@@ -230,7 +244,7 @@ class Scheduler:
         previous projection are attributed to `run` (0 = before the runs), and
         so is a successful write call to the file `wrote` (even if it left the
         same bytes).'''
-        files, stray = [], 0
+        files, tmps, stray = [], [], 0
         now = {}
         for fname in sorted(os.listdir(self.outdir)):
             with builtins.open(os.path.join(self.outdir, fname), "rb") as fin:
@@ -248,14 +262,19 @@ class Scheduler:
         self.bytes = now
         for fname, data in now.items():
             tag = self.cls.tag_of(fname)
-            if tag is None:
+            if tag is None and not self.cls.is_tmp(fname):
                 stray += 1
                 continue
             cls, inner = self.cls.classify(data.decode(errors="replace"))
-            files.append({"name": tag, "by": self.creator[fname],
-                          "w": sorted(self.writers[fname]),
-                          "content": cls, "inner": inner})
-        return files, stray
+            if tag is None:
+                # a temporary file: projected apart from the final kernel files
+                tmps.append({"by": self.creator[fname], "content": cls, "inner": inner})
+            else:
+                files.append({"name": tag, "by": self.creator[fname],
+                              "w": sorted(self.writers[fname]),
+                              "content": cls, "inner": inner})
+        tmps.sort(key=lambda t: (t["by"], t["content"]))
+        return files, tmps, stray
 
 
 def _flag_names(flags):
@@ -389,6 +408,22 @@ class OsProxy:
                          reading=("r" in mode and "+" not in mode))
 
 
+def make_mkstemp(sched, real_mkstemp):
+    '''Stands for tempfile.mkstemp (psyGen imports tempfile locally).'''
+    def shim_mkstemp(*args, **kw):
+        run = sched.current()
+        if run is None:
+            return real_mkstemp(*args, **kw)
+        where = kw.get("dir", args[2] if len(args) > 2 else None)
+        inside = where is not None and \
+            os.path.abspath(str(where)) == os.path.abspath(sched.outdir)
+        fdesc, path = sched.step("mkstemp", "tmp" if inside else "x:mkstemp", "",
+                                 lambda: real_mkstemp(*args, **kw))
+        sched.fdname[(run, fdesc)] = sched.name_of(path)
+        return fdesc, path
+    return shim_mkstemp
+
+
 def make_open(sched):
     def shim_open(path, mode="r", *args, **kw):
         if sched.current() is None:
@@ -430,8 +465,10 @@ def replay(case, info, refs, blob=None):
     from psyclone.errors import GenerationError
     from pv import core
     nruns, scheme, pre, ver = case["nruns"], case["scheme"], case["pre"], case["ver"]
+    import tempfile
     outdir = core.mktemp("pv-c29-out-")
     real_os, had_open = psyGen.os, "open" in vars(psyGen)
+    real_mkstemp = tempfile.mkstemp
     try:
         set_config(outdir, scheme)
         psys = {run: make_psy(info, ver[run - 1], blob) for run in range(1, nruns + 1)}
@@ -443,10 +480,11 @@ def replay(case, info, refs, blob=None):
                 fout.write(refs[pre])
         classifier = Classifier(refs)
         sched = Scheduler(outdir, classifier, split_write=case.get("split", False))
-        fs0, stray0 = sched.project(0)
+        fs0, _, stray0 = sched.project(0)
         facts = PsyFacts()
         psyGen.os = OsProxy(sched)
         psyGen.open = make_open(sched)
+        tempfile.mkstemp = make_mkstemp(sched, real_mkstemp)
 
         def body(run):
             def inner():
@@ -493,6 +531,7 @@ def replay(case, info, refs, blob=None):
                 "sched": case["sched"], "fs0": fs0, "stray0": stray0,
                 "events": events, "fin": fin, "resched": skipped}
     finally:
+        tempfile.mkstemp = real_mkstemp
         psyGen.os = real_os
         if not had_open and "open" in vars(psyGen):
             del psyGen.open
